@@ -49,6 +49,7 @@ class Engine:
         self.forks = 0
         self.proves = 0
         self.proved = 0
+        self.concrete_proves = 0
         self.vars: dict[str, Any] = {}
         self.notes: list = []  # free-form per-path notes (for samples)
 
@@ -152,6 +153,15 @@ class Engine:
     def prove(self, cond, msg="", info=None):
         """Obligation: cond holds for every value of the symbolic inputs on this path."""
         self.proves += 1
+        if isinstance(cond, bool):
+            # does not depend on the symbolic inputs on this path: decided by evaluation
+            self.concrete_proves += 1
+            if not cond:
+                if self.check() != z3.sat:
+                    raise Abort()
+                raise CexFound(msg, self.model_dict(), info)
+            self.proved += 1
+            return
         cond = _zb(cond)
         if self.check(z3.Not(cond)) == z3.sat:
             raise CexFound(msg, self.model_dict(), info)
@@ -187,13 +197,14 @@ class Stats:
         self.forks = 0
         self.proves = 0
         self.proved = 0
+        self.concrete_proves = 0
         self.aborted = 0
         self.cex: list = []
         self.samples: list = []
         self.inconclusive: list = []
 
     def merge(self, o: "Stats"):
-        for k in ("paths", "queries", "qtime", "realisations", "forks", "proves", "proved", "aborted"):
+        for k in ("paths", "queries", "qtime", "realisations", "forks", "proves", "proved", "aborted", "concrete_proves"):
             setattr(self, k, getattr(self, k) + getattr(o, k))
         self.cex += o.cex
         self.samples += o.samples[: max(0, 6 - len(self.samples))]
@@ -202,7 +213,8 @@ class Stats:
     def as_dict(self):
         return dict(paths=self.paths, queries=self.queries, solver_s=round(self.qtime, 3),
                     realisation_forks=self.realisations, forks=self.forks, obligations=self.proves,
-                    discharged=self.proved, aborted_paths=self.aborted)
+                    discharged=self.proved, aborted_paths=self.aborted,
+                    obligations_decided_by_evaluation=self.concrete_proves)
 
 
 def explore(fn: Callable[[Engine], Any], max_paths=2_000_000, max_cex=8, want_samples=3,
@@ -235,6 +247,7 @@ def explore(fn: Callable[[Engine], Any], max_paths=2_000_000, max_cex=8, want_sa
         st.forks += e.forks
         st.proves += e.proves
         st.proved += e.proved
+        st.concrete_proves += e.concrete_proves
         tr = e.trail
         while tr and tr[-1][1]:
             tr.pop()
